@@ -63,6 +63,8 @@ impl Prop for C11 {
         for dir in ["decrypt", "encrypt"] { for mode in ["key", "pass"] { for out in ["stdout", "file"] { v.push(case(&[("mode", format!("cli-{}", mode)), ("dir", dir.into()), ("out", out.into()), ("size", (if th { 256usize << 20 } else { 96 << 20 }).to_string()), ("seed", rng.next().to_string())])); } } }
         // the binary in a pipeline whose consumer stalls (input on standard input, output on standard output)
         for dir in ["encrypt", "decrypt"] { for mode in ["key", "pass"] { if th || (dir == "encrypt") == (mode == "key") { v.push(case(&[("mode", format!("pipe-{}", mode)), ("dir", dir.into()), ("size", (if th { 256usize << 20 } else { 96 << 20 }).to_string()), ("seed", rng.next().to_string())])); } } }
+        // the tool reading its FILE argument from a named pipe (an input whose length cannot be asked for): resident memory must not grow with what flows through
+        for (dir, mode) in [("encrypt", "pass"), ("decrypt", "key")] { v.push(case(&[("mode", format!("fifo-{}", mode)), ("dir", dir.into()), ("size", (if th { 128usize << 20 } else { 64 << 20 }).to_string()), ("seed", rng.next().to_string())])); }
         // the destination stops taking data in the middle of the stream (every write from some call on fails: would-block, timed out, no space …):
         // the operation ends with the write error — it must not go on consuming input, nor keep what it cannot deliver
         for dir in ["encrypt", "decrypt"] { for mode in ["key", "pass"] { for (i, kind) in ["wouldblock", "timedout", "nospace", "brokenpipe"].iter().enumerate() { if th || (i + (dir == "encrypt") as usize + (mode == "key") as usize) % 2 == 0 {
@@ -73,6 +75,25 @@ impl Prop for C11 {
     }
     fn run(&self, c: &Case, _m: &mut Model) -> Outcome {
         let mut o = Outcome::default();
+        if get(c, "mode").starts_with("fifo-") {
+            use crate::cli::*;
+            let fx = fixtures(); let keym = get(c, "mode") == "fifo-key"; let dec = get(c, "dir") == "decrypt"; let big = getn(c, "size"); let pw = "pass123";
+            let mut rss = vec![];
+            for size in [4usize << 20, big] {
+                let plain: Vec<u8> = (0..size).map(|i| (i as u8).wrapping_mul(29).wrapping_add((i >> 13) as u8)).collect();
+                let input = if !dec { plain } else if keym { crate::imp::key_encrypt(&fx.alice.sk, &fx.alice.pk, &fx.bob.pk, None, None, &plain, &crate::imp::NOSCRIPT).out } else { crate::imp::pass_encrypt(pw.as_bytes(), &[7u8; 32], &plain, &crate::imp::NOSCRIPT).out };
+                let world = World { files: vec![("kr.txt".into(), keyring(&[(&fx.alice, true), (&fx.bob, true)]).into_bytes())], env: vec![("KESTREL_PASSWORD".into(), if keym { if dec { fx.bob.pw.into() } else { fx.alice.pw.into() } } else { pw.into() })], stdin: vec![] };
+                let args: Vec<String> = match (keym, dec) { (true, true) => sv(&["decrypt", "in.pipe", "-t", "bob", "-k", "kr.txt", "-o", "out.bin", "--env-pass"]), (true, false) => sv(&["encrypt", "in.pipe", "-t", "bob", "-f", "alice", "-k", "kr.txt", "-o", "out.bin", "--env-pass"]),
+                    (false, true) => sv(&["password", "decrypt", "in.pipe", "-o", "out.bin", "--env-pass"]), (false, false) => sv(&["password", "encrypt", "in.pipe", "-o", "out.bin", "--env-pass"]) };
+                let obs = run_kestrel_wired(&world, &args, &Wiring { stdout: StdoutMode::Pipe, links: vec![], fifos: vec![("in.pipe".into(), input)] });
+                if obs.exit != Some(0) { o.oracle_fail = Some(("command-succeeds".into(), format!("{:?} with the input on a named pipe ({} bytes): exit {:?} timed out = {} {}", args, size, obs.exit, obs.timed_out, obs.stderr.trim().chars().take(120).collect::<String>()))); return o; }
+                rss.push(obs.peak_rss_kb);
+            }
+            o.validated += 2; o.nontrivial = Some(format!("{}/{}", get(c, "mode"), get(c, "dir"))); o.tags.push(format!("named-pipe input {} {}", get(c, "mode"), get(c, "dir")));
+            o.impl_obs = format!("input on a named pipe: peak RSS {} KiB at 4 MiB, {} KiB at {} MiB", rss[0], rss[1], big >> 20); o.model_obs = "may differ by at most 16 MiB".into();
+            if rss[0] > 0 && rss[1] > rss[0] + (16 << 10) { o.oracle_fail = Some(("constant-memory".into(), format!("kestrel {} ({} mode) reading its FILE argument from a named pipe: peak resident memory grows with the input: {} KiB for 4 MiB, {} KiB for {} MiB", get(c, "dir"), if keym { "key" } else { "password" }, rss[0], rss[1], big >> 20))); }
+            return o;
+        }
         if get(c, "mode").starts_with("stuck-") {
             let mut rng = Rng::new(get(c, "seed").parse().unwrap_or(0));
             let keym = get(c, "mode") == "stuck-key"; let dec = get(c, "dir") == "decrypt"; let size = getn(c, "size"); let okcalls = getn(c, "okcalls");
